@@ -26,7 +26,9 @@ from beartype.roar import (BeartypeCallHintViolation, BeartypeClawDecorWarning, 
 
 RULE = ('seeded module grammar (functions, async functions, classes with plain/static/class/property members and '
         'annotated fields, nested classes, closures, if/for/while/try/with/match blocks, user decorator stacks, '
-        'docstrings, __future__ imports, annotated assignments to names / attributes / subscripts with and without '
+        'the decorator-hostile third-party decorators of the default beforelist (stand-in celery / fastmcp / '
+        'langchain_core packages bound in ten ways: direct call, alias, module attribute, annotated assignment from a '
+        'factory, bare annotation then assignment, untracked control), docstrings, __future__ imports, annotated assignments to names / attributes / subscripts with and without '
         'value at module, function and class scope; every value, default and decorator expression wrapped in a tracing '
         'call) x hook configurations (claw_is_pep526, claw_decor_place_func/type, default vs non-default conf) x '
         'optional planted violation; distinct by (module source, configuration); non-trivial = the module has a class, '
@@ -186,6 +188,20 @@ class Gen:
             dflt = f' = {self.val(t)}' if self.rng.random() < .3 else ''
             params.append(f'a{i}: {t}{dflt}' if annotated else f'a{i}{dflt}')
         ret = ' -> int' if annotated and self.rng.random() < .6 else ''
+        # where the annotations sit: ordinary parameters, positional-only ones only ("a0: int, /"), a variadic only
+        style = self.rng.choice(('plain', 'plain', 'posonly', 'varargs')) if (np and not in_class) else 'plain'
+        if style == 'posonly':
+            params.append('/')
+            if self.rng.random() < .5:
+                ret = ''
+            self.features.add('positional-only-parameters')
+        elif style == 'varargs':
+            t0 = typs[0]
+            typs[:] = [t0] * len(typs)
+            params[:] = [f'*va: {t0}' if annotated else '*va']
+            if self.rng.random() < .5:
+                ret = ''
+            self.features.add('variadic-only-parameters')
         self.emit(ind, f"{'async ' if is_async else ''}def {name}({', '.join(params)}){ret}:")
         if self.rng.random() < .3:
             self.emit(ind + 1, "'''doc.'''")
